@@ -260,11 +260,28 @@ pub fn server_caps(variant: u8) -> Vec<Vec<u8>> {
     let input = { let mut b = vec![0x75, 3, 0, 0]; b.extend(vec![0; 80]); cap(13, &b) };
     let unknown = cap(0x1e, &[0, 0, 0, 0]);
     let surface = cap(0x1c, &[0x52, 0, 0, 0, 0, 0, 0, 0]);
-    match variant % 4 {
+    // general capability sets whose extraFlags do not announce fast-path output (the bit matters in the CLIENT's set)
+    let general_nofp = cap(1, &[1, 0, 3, 0, 0, 2, 0, 0, 0, 0, 0x1c, 4, 0, 0, 0, 0, 0, 0, 1, 1]);
+    let general_zero = cap(1, &[1, 0, 3, 0, 0, 2, 0, 0, 0, 0, 0, 0, 0, 0, 0, 0, 0, 0, 0, 0]);
+    let order = { let mut b = vec![0u8; 84]; b[20] = 1; b[22] = 20; cap(3, &b) };
+    let bmpcache = cap(4, &vec![0u8; 36]);
+    let colorcache = cap(10, &[6, 0, 0, 0]);
+    let sound = cap(12, &[1, 0, 0, 0]);
+    let glyph = cap(16, &vec![0u8; 48]);
+    let brush = cap(15, &[1, 0, 0, 0]);
+    let offscreen = cap(17, &[1, 0, 0, 0, 0, 0x1e, 0x64, 0]);
+    let multifrag = cap(26, &[0, 0, 1, 0]);
+    let large_ptr = cap(27, &[1, 0]);
+    match variant % 8 {
         0 => vec![share.clone(), general, vc_long, font, bitmap, pointer, input, surface, unknown],
         1 => vec![general, bitmap, vc_short, pointer],
         2 => vec![unknown, surface, input, pointer, bitmap, general, share],
-        _ => vec![general],
+        3 => vec![general],
+        4 => vec![general_nofp, bitmap, vc_short, pointer, input],
+        5 => vec![bitmap, pointer, general_zero, share],
+        6 => vec![bitmap, pointer],
+        // every capability set type the client knows, plus what Windows adds
+        _ => vec![share, general, vc_long, font, bitmap, order, bmpcache, colorcache, pointer, input, sound, glyph, brush, offscreen, multifrag, large_ptr, surface, unknown],
     }
 }
 
@@ -291,6 +308,14 @@ pub fn deactivate_all(share_id: [u8; 4]) -> Vec<u8> {
 
 pub fn data_pdu(share_id: [u8; 4], t2: u8, payload: &[u8]) -> Vec<u8> {
     sdin(1003, &share_data(share_id, t2, payload))
+}
+
+/// slow-path bitmap update (MS-RDPBCGR 2.2.9.1.1.3.1.2): share data PDU of pduType2 UPDATE carrying TS_UPDATE_BITMAP_DATA
+pub fn slow_bitmap_update(share_id: [u8; 4], rects: &[Rect]) -> Vec<u8> {
+    let mut d = u16le(1);
+    d.extend(u16le(rects.len() as u16));
+    for r in rects { d.extend(bitmap_rect(r)); }
+    data_pdu(share_id, 0x02, &d)
 }
 
 pub fn synchronize(share_id: [u8; 4], target: u16) -> Vec<u8> {
